@@ -30,6 +30,7 @@ import (
 	"verif/engine/ev"
 	"verif/engine/gx"
 	"verif/ref/e2erig"
+	"verif/ref/fakemysql"
 )
 
 const horizon = 10 * time.Second
@@ -45,11 +46,13 @@ var replaceBytes = []byte{0x00, 0x01, 0x7f, 0x80, 0xfb, 0xfc, 0xfd, 0xfe, 0xff}
 //	seq     header sequence id = V
 //	stmtid  statement id (payload[1:5]) = V
 //	ptype   (seed exec1 only) parameter type code P, flag V, value cut to W bytes
+//	sql     (seed sql_text only) COM_QUERY with the text T (a broken statement of the text family)
 type Mut struct {
 	K string `json:"k"`
 	P int    `json:"p"`
 	V int    `json:"v"`
 	W int    `json:"w,omitempty"`
+	T string `json:"t,omitempty"` // sql: the statement text
 }
 
 // Case = seed + up to two mutations.
@@ -64,6 +67,8 @@ func (c Case) String() string {
 		switch m.K {
 		case "ptype":
 			ms = append(ms, fmt.Sprintf("ptype(type=0x%02x,flag=0x%02x,value_bytes=%d)", m.P, m.V, m.W))
+		case "sql":
+			ms = append(ms, fmt.Sprintf("%q", m.T))
 		case "trunc":
 			ms = append(ms, fmt.Sprintf("trunc(%d)", m.P))
 		case "byte":
@@ -188,6 +193,8 @@ func initSeeds() {
 		cmdSeed("quit", "", false, []byte{0x01}),
 		cmdSeed("change_user_unsupported", "", false, cat([]byte{0x11}, []byte(e2erig.User), []byte{0, 0}, []byte(e2erig.DB), []byte{0})),
 		cmdSeed("reset_connection_unsupported", "", false, []byte{0x1f}),
+		// sql_text is only used with sql mutations (the broken-statement text family)
+		{name: "sql_text", phase: "command", quick: true, build: func([]byte) []byte { return []byte("\x03select 1") }},
 		// exec1 is only used with ptype mutations (the payload is built from the mutation)
 		{name: "exec1", phase: "command", setup: "prepare1", quick: true, build: func([]byte) []byte { return exec1(0, 0x08, 0, -1) }},
 	}
@@ -211,13 +218,15 @@ func apply(s *seed, salt []byte, muts []Mut) []byte {
 	seq := -1
 	// positional mutations refer to the ORIGINAL payload: apply byte/stmtid first, then
 	// lenenc (which shifts), then trunc
-	order := map[string]int{"ptype": 0, "byte": 1, "stmtid": 1, "lenenc": 2, "trunc": 3, "hdrlen": 4, "seq": 4}
+	order := map[string]int{"sql": 0, "ptype": 0, "byte": 1, "stmtid": 1, "lenenc": 2, "trunc": 3, "hdrlen": 4, "seq": 4}
 	ms := append([]Mut(nil), muts...)
 	sort.SliceStable(ms, func(i, j int) bool { return order[ms[i].K] < order[ms[j].K] })
 	for _, m := range ms {
 		switch m.K {
 		case "ptype":
 			payload = exec1(0, byte(m.P), byte(m.V), m.W)
+		case "sql":
+			payload = append([]byte{0x03}, m.T...)
 		case "byte":
 			if m.P < len(payload) {
 				payload[m.P] = byte(m.V)
@@ -286,7 +295,7 @@ func midPacket(b []byte) bool {
 // ---- universe ----------------------------------------------------------------------------
 
 func singleMuts(s *seed) []Mut {
-	if s.name == "exec1" {
+	if s.name == "exec1" || s.name == "sql_text" {
 		return nil
 	}
 	n := len(s.build(make([]byte, 20)))
@@ -360,6 +369,65 @@ func ptypeMuts(all bool) []Mut {
 	return ms
 }
 
+// ---- broken statement texts ---------------------------------------------------------------
+
+var skeletons = []string{
+	"select * from tp where id in ( 1 , 2 )",
+	"select a , b from tp where a = 'x' and b in ( 'y' )",
+	"select \"x\" , `a` from tp",
+	"select /* c */ 1",
+	"insert into tp ( a , b ) values ( 1 , 'x' )",
+	"insert into tp values ( 1 , 2 ) , ( 3 , 4 )",
+	"update tp set a = 1 where id in ( 1 )",
+	"delete from tp where id in ( 1 , 2 )",
+	"set @a = 1",
+	"set names utf8",
+	"show tables",
+	"use db",
+}
+
+var unbalanced = []string{")", "(", "'", "\"", "`", "/*"}
+
+// sqlTexts enumerates the text family completely: for every skeleton (a token list) every
+// prefix, every prefix followed by one unbalanced token, the whole statement with one
+// unbalanced token inserted after each token, every single-token deletion, duplication and
+// swap of adjacent tokens. Duplicates are removed; order is deterministic.
+func sqlTexts() []string {
+	seen := map[string]bool{}
+	var out []string
+	add := func(toks []string) {
+		t := strings.Join(toks, " ")
+		if !seen[t] {
+			seen[t] = true
+			out = append(out, t)
+		}
+	}
+	cp := func(t []string) []string { return append([]string(nil), t...) }
+	for _, sk := range skeletons {
+		toks := strings.Fields(sk)
+		n := len(toks)
+		for i := 0; i <= n; i++ {
+			add(toks[:i])
+			for _, u := range unbalanced {
+				add(append(cp(toks[:i]), u))
+				if i < n {
+					add(append(append(cp(toks[:i]), u), toks[i:]...))
+				}
+			}
+		}
+		for i := 0; i < n; i++ {
+			add(append(cp(toks[:i]), toks[i+1:]...))                    // deletion
+			add(append(append(cp(toks[:i+1]), toks[i]), toks[i+1:]...)) // duplication
+			if i+1 < n {
+				sw := cp(toks)
+				sw[i], sw[i+1] = sw[i+1], sw[i]
+				add(sw) // swap
+			}
+		}
+	}
+	return out
+}
+
 func universe(thorough bool) []Case {
 	var cs []Case
 	for _, s := range seeds {
@@ -372,6 +440,9 @@ func universe(thorough bool) []Case {
 	}
 	for _, m := range ptypeMuts(thorough) {
 		cs = append(cs, Case{Seed: "exec1", Muts: []Mut{m}})
+	}
+	for _, t := range sqlTexts() {
+		cs = append(cs, Case{Seed: "sql_text", Muts: []Mut{{K: "sql", T: t}}})
 	}
 	if thorough {
 		// pairs of mutations on the execute and handshake seeds: byte x byte (p1 < p2),
@@ -604,7 +675,27 @@ const (
 func spec() e2erig.ChildSpec {
 	ns := e2erig.Namespace(nsName, 16, "@0")
 	ns.MaxClientConnections = maxClients
-	return e2erig.ChildSpec{Prefix: "c38", Backends: 1, Namespaces: []*models.Namespace{ns}}
+	return e2erig.ChildSpec{Prefix: "c38", Backends: 1, Handler: "c38", Namespaces: []*models.Namespace{ns}}
+}
+
+// backendHandler makes the fake backend behave like a server with a parser: only the
+// statements the harness' well-formed seeds produce are executed, everything else is a
+// syntax error (1064). Without it a broken text that the proxy passes through would be
+// answered with OK and the proxy's error paths would never run.
+func backendHandler(c *fakemysql.ConnInfo, sql string) *fakemysql.Result {
+	t := strings.ToLower(strings.Join(strings.Fields(sql), " "))
+	for _, sk := range skeletons {
+		if t == strings.ToLower(sk) {
+			return nil
+		}
+	}
+	for _, p := range []string{"select 1", "select v from tp where id=", "show ", "kill "} {
+		if strings.HasPrefix(t, p) && strings.Count(t, "(") == strings.Count(t, ")") && strings.Count(t, "'")%2 == 0 {
+			return nil
+		}
+	}
+	return &fakemysql.Result{Err: &fakemysql.SQLError{Code: 1064, State: "42000",
+		Msg: "You have an error in your SQL syntax; check the manual that corresponds to your MySQL server version for the right syntax to use near '" + sql + "'"}}
 }
 
 func (w *world) start() {
@@ -682,6 +773,8 @@ func main() {
 	e2erig.RegisterChildCommand("conncount", func(p *e2erig.Proxy, ns string) string {
 		return fmt.Sprint(server.VerifClientConnections(p.Mgr, ns))
 	})
+	e2erig.RegisterHandler("c38", backendHandler)
+	e2erig.RegisterChildCommand("ping", func(*e2erig.Proxy, string) string { return "pong" })
 	e2erig.MaybeChild()
 	initSeeds()
 	r := ev.Start("C38", "exploration")
@@ -706,10 +799,30 @@ func main() {
 
 	// runOne runs one case with all checks, sequentially (used for replay, for pinpointing
 	// a crash and for re-running hang candidates).
+	// A crash can come from a background goroutine AFTER the response was written. settle
+	// gives it the time of two control-channel round trips (no sleeping); with long=true
+	// it polls the process state (ends as soon as the child is dead, at most 3 s).
+	settle := func(long bool) {
+		for i := 0; i < 2 && w.child.Alive(); i++ {
+			w.child.Command("ping")
+		}
+		if long {
+			for d := time.Now().Add(3 * time.Second); w.child.Alive() && time.Now().Before(d); {
+				time.Sleep(2 * time.Millisecond)
+			}
+		}
+	}
+	longSettle := false
+	var lastCase *Case   // the case judged by the previous runOne (child alive at its end)
+	var lateCrash []Case // cases after whose verdict the child was found dead
 	runOne := func(c Case) (string, result, string) {
 		if !w.child.Alive() {
+			if lastCase != nil {
+				lateCrash = append(lateCrash, *lastCase)
+			}
 			w.start()
 		}
+		lastCase = nil
 		h, err := healthy(w.child.Addr)
 		if err != nil {
 			// the server was left unusable by earlier cases: continue on a fresh child
@@ -727,7 +840,7 @@ func main() {
 		}
 		base := w.connCount()
 		res := runCase(w.child.Addr, c)
-		time.Sleep(20 * time.Millisecond)
+		settle(longSettle)
 		if !w.child.Alive() {
 			return "crash", res, w.child.ExitState() + "\n" + w.child.Stderr()
 		}
@@ -764,11 +877,19 @@ func main() {
 		if err != nil {
 			return "other_session_affected", res, "new session after the case: " + err.Error()
 		}
+		cc := c
+		lastCase = &cc
 		return "", res, ""
 	}
 	confirm := func(c Case, kind string) (bool, result, string) {
 		var res result
 		var extra string
+		if kind == "crash" {
+			// the process may die a moment after the answer: wait for the process state
+			prev := longSettle
+			longSettle = true
+			defer func() { longSettle = prev }()
+		}
 		for i := 0; i < 5; i++ {
 			k, r2, e2 := runOne(c)
 			res, extra = r2, e2
@@ -809,6 +930,7 @@ func main() {
 	var next, done int64
 	outcomes := map[string]int{}
 	var omu sync.Mutex
+	var recent []Case   // the last cases that completed without any sign of trouble (a crash may come late)
 	var suspects []Case // cases to re-examine sequentially (in flight at a crash, hang candidates, health failures)
 	var wg sync.WaitGroup
 	var capped int32
@@ -852,11 +974,18 @@ func main() {
 					}
 					if bad || !w.child.Alive() {
 						omu.Lock()
+						// the crash may be the late effect of a case that already completed
+						suspects = append(suspects, recent...)
+						recent = nil
 						suspects = append(suspects, c)
 						omu.Unlock()
 					} else {
 						omu.Lock()
 						outcomes[c.Seed+"|"+res.outcome]++
+						recent = append(recent, c)
+						if len(recent) > 4*workers {
+							recent = recent[len(recent)-4*workers:]
+						}
 						omu.Unlock()
 					}
 					atomic.AddInt64(&done, 1)
@@ -893,7 +1022,10 @@ func main() {
 			to++
 		}
 		batch(from, to)
+		settle(false)
 		if !w.child.Alive() {
+			suspects = append(recent, suspects...)
+			recent = nil
 			w.start()
 		} else if n, ok := w.waitCount(0); !ok {
 			// every harness connection is closed, yet the namespace still counts n client
@@ -976,6 +1108,38 @@ func main() {
 				outcomes[c.Seed+"|"+res.outcome]++
 			}
 		}
+		// the child may have died after the last suspect was judged
+		if len(sus) > 0 {
+			settle(false)
+			if !w.child.Alive() && lastCase != nil {
+				lateCrash = append(lateCrash, *lastCase)
+				lastCase = nil
+			}
+		}
+		// cases after whose verdict the child was found dead: once more, waiting for the
+		// process state (long settle)
+		late := lateCrash
+		lateCrash = nil
+		longSettle = true
+		for _, c := range late {
+			if r.TimeUp() || reported >= maxReports {
+				break
+			}
+			k, _, _ := runOne(c)
+			if k != "crash" {
+				continue
+			}
+			ok, res2, extra2 := confirm(c, k)
+			if !ok {
+				ev.Fatalf("case %s: late crash not reproducible", c)
+			}
+			report(c, k, res2, extra2)
+			reported++
+			found++
+		}
+		longSettle = false
+		lastCase = nil
+		lateCrash = nil
 		if len(sus) > 0 && found == 0 {
 			// something went wrong in the parallel batch that no single suspect reproduces
 			// on its own: an earlier case of the batch may have damaged the server for the
